@@ -162,7 +162,7 @@ func c07One(c *core.Ctx, src, origin string, i int) {
 	c.Event("sources", 1)
 	_, f, ok := formatGuard(c, src)
 	if !ok {
-		if origin == "run-pattern" {
+		if origin == "run-pattern" || origin == "deep-nesting" {
 			c.Violation("pattern-rejected", "enumerated statement run was rejected", src, nil)
 		}
 		return
